@@ -54,6 +54,7 @@ class M(Quiet):
 
 def run(ctx):
     prog = ctx.program
+    barrel_positions(ctx, prog)
     base = prog.cls(BASE)
     for cls in CONCRETE:
         ci = prog.cls(cls)
@@ -202,3 +203,43 @@ def run(ctx):
     for r, n in (('T1.hook', 6), ('T9.add', 2), ('T9.readd', 2), ('T2.remove', 2), ('T9.cull', 4), ('T2.pop', 2), ('T9.cullonly', 2),
                  ('T12.layout', 3), ('T11.counter', 1)):
         ctx.need(r, n)
+
+
+def barrel_positions(ctx, prog):
+    """BarrelList (backend of SortedPriorityQueue): a position inside one sub-list is meaningful only as the result of
+    _translate_index, or when there is a single sub-list, or at the very end (append side).  Any other literal/derived
+    position (e.g. lists[0].pop(0)) assumes a sub-list is non-empty / starts at global index 0, which the structure
+    does not maintain (sub-lists may be empty)."""
+    ci = prog.cls('listutils.BarrelList')
+    ctx.saw('classes', 'listutils.BarrelList')
+    n = 0
+    for name in ('pop', 'insert', '__getitem__', '__delitem__', '__setitem__'):
+        fn = ci.own(name)
+        if not isinstance(fn, FuncInfo):
+            continue
+        w, paths = paths_of(prog, fn, recv=ci)
+        for p in paths:
+            single = any(t in ('len(self.lists) == 1',) and truth for t, truth, o in tests_on(w, p))
+            tr = set()
+            for nm, info in w.tokens.items():
+                if info[0] == 'call' and len(info) > 2 and isinstance(info[2].val, ast.Call) and \
+                        txt(info[2].val.func) == 'self._translate_index':
+                    tr.add(nm)
+            for o in p.ops:
+                sub = pos = None
+                if o.kind == 'call' and isinstance(o.val.func, ast.Attribute) and o.val.func.attr in ('pop', 'insert') and o.val.args:
+                    sub, pos = o.val.func.value, o.val.args[0]
+                elif o.kind in ('sub_load', 'sub_store', 'sub_del') and isinstance(o.val, ast.Subscript):
+                    sub, pos = o.val.value, o.val.slice
+                if sub is None or not (isinstance(sub, ast.Subscript) and txt(sub.value) == 'self.lists'):
+                    continue
+                if isinstance(pos, ast.Slice):
+                    continue
+                n += 1
+                j, i = txt(sub.slice), txt(pos)
+                via = any(j == '%s[0]' % t and i == '%s[1]' % t for t in tr)
+                ok = via or single
+                ctx.ob('T9.translate', '%s.%s' % (ci.fq, name), 'a position inside a sub-list comes from _translate_index (or there is '
+                       'provably a single sub-list)', ok, loc=loc(fn, o.node), detail='self.lists[%s] at position %s' % (j, i),
+                       path=p.describe() if not ok else None)
+    ctx.need('T9.translate', 5)
